@@ -3,9 +3,10 @@ import hashlib, json, os, subprocess, sys, time, glob, shutil
 
 VERIF = os.path.dirname(os.path.dirname(os.path.abspath(__file__)))
 REPO = os.environ.get("VERIF_REPO", "/repo")
-BUILD = os.path.join(VERIF, ".build")
+# Development aid: VERIF_REPO=<scratch copy> checks another tree (own build directory); the registered commands always use /repo.
+BUILD = os.path.join(VERIF, ".build") if REPO == "/repo" else os.path.join(VERIF, ".build", "alt-" + hashlib.sha1(REPO.encode()).hexdigest()[:8])
 EVID = os.path.join(VERIF, "evidence")
-OUT = os.path.join(VERIF, "out")          # counterexamples / replay inputs (git-ignored)
+OUT = os.path.join(VERIF, "out") if REPO == "/repo" else os.path.join(BUILD, "out")          # counterexamples / replay inputs (git-ignored)
 GUARD = "ekg_ragc_verif"
 NCPU = int(os.environ.get("VERIF_JOBS", os.cpu_count() or 4))
 
